@@ -301,6 +301,8 @@ def column_tokens(col):
         elif k == "UNIQUE":
             toks += K("UNIQUE")
         elif k == "REF":
+            if len(o) > 2 and o[2]:  # inline foreign key with a constraint name
+                toks += K("CONSTRAINT") + [I(o[2])]
             toks += reference_tokens(o[1])
         elif k == "CHECK":
             # o = ["CHECK", constraint_name|None, [operand tokens as (text, role)]]
